@@ -189,7 +189,7 @@ def _(vm, a, ci):
     if m == 'rsplit_once':
         for i in range(n, -1, -1):
             k = _match_at(vm, items, i, pk, pv)
-            if k is not None and (k > 0 or pk != 'str'): return some(tup(_view(s, 0, i), _view(s, i + k, n)))
+            if k is not None: return some(tup(_view(s, 0, i), _view(s, i + k, n)))
         return NONE()
     # replace / replacen: non-overlapping matches left to right
     rep = _bounded(vm, S(vm, a[2])); limit = a[3] if m == 'replacen' else None
